@@ -227,6 +227,16 @@ func c07Long(argv []string, late bool, verbose bool) []string {
 }
 
 func init() {
+	// the rewriting table and the definition must agree (a letter missing from the definition once went unnoticed)
+	have := map[string]bool{}
+	for _, o := range defC07(0, false).Root.Opts {
+		have[o.Name] = true
+	}
+	for l := range c07Declared {
+		if !have[l] {
+			panic("C07: letter " + l + " is listed as declared but defC07 does not declare it")
+		}
+	}
 	parserJudges["C07"] = judgeC07
 	register(&Check{
 		ID:        "C07",
